@@ -24,20 +24,23 @@ pub fn tf1024_contract(cv: &mut X8, data: &GenericArray<u8, U128>) { let o = rec
 pub fn of1024_contract(cv: &mut X8) { let o = rec::record(2, &x8_bytes(cv), &[], [0, 0]); *cv = x8_from(&o); }
 pub fn init1024_contract(cv: X8) -> X8 { let o = rec::record(3, &x8_bytes(&cv), &[], [0, 0]); x8_from(&o) }
 
-pub fn g256(h: &mut Groestl256) -> (&mut u64, [u8; 128], usize) {
+// counters go through `as` conversions so that the hook compiles whatever integer type the field has
+pub fn g256(h: &mut Groestl256) -> (u128, [u8; 128], usize) {
     let mut cv = [0u8; 128];
     let b = x4_bytes(&h.compressor.cv);
     let mut i = 0;
     while i < 64 { cv[i] = b[i]; i += 1; }
     let pos = h.buffer.position();
-    (&mut h.block_counter, cv, pos)
+    (h.block_counter as u128, cv, pos)
 }
+pub fn g256_set_counter(h: &mut Groestl256, c: u128) { h.block_counter = c as _; }
 pub fn g256_set_cv(h: &mut Groestl256, cv: &[u8; 128]) { h.compressor.cv = x4_from(cv); }
-pub fn g512(h: &mut Groestl512) -> (&mut u64, [u8; 128], usize) {
+pub fn g512(h: &mut Groestl512) -> (u128, [u8; 128], usize) {
     let cv = x8_bytes(&h.compressor.cv);
     let pos = h.buffer.position();
-    (&mut h.block_counter, cv, pos)
+    (h.block_counter as u128, cv, pos)
 }
+pub fn g512_set_counter(h: &mut Groestl512, c: u128) { h.block_counter = c as _; }
 pub fn g512_set_cv(h: &mut Groestl512, cv: &[u8; 128]) { h.compressor.cv = x8_from(cv); }
 pub fn g224(h: &mut Groestl224) -> &mut Groestl256 { &mut h.0 }
 pub fn g384(h: &mut Groestl384) -> &mut Groestl512 { &mut h.0 }
